@@ -76,6 +76,31 @@ CHECKS = {
             dict(harness="C14_Multibyte"),
         ],
     },
+    "C15": {
+        "quick": [
+            dict(harness="C15_N1", cover=["literal", "pattern"], bounds="s = 1 symbolic rune over D x 4 quoting styles x 6 ExpModes; IFS = 2 symbolic bytes, HOME, 2 positional parameters, directory {zz, a, d/}"),
+            dict(harness="C15_N2", cover=["literal", "pattern"], bounds="s = 2 symbolic runes over D x 4 quoting styles x 6 ExpModes; same environment"),
+        ],
+        "thorough": [
+            dict(harness="C15_N1", cover=["literal", "pattern"]),
+            dict(harness="C15_N2", cover=["literal", "pattern"]),
+            dict(harness="C15_N3", cover=["literal", "pattern"], bounds="s = 3 symbolic ASCII runes x 4 styles x 6 modes"),
+        ],
+    },
+    "C20": {
+        "quick": [
+            dict(harness="C20_H1", bounds="histories of 1 operation over 7 operation kinds x 11 names; values 1 symbolic byte, arithmetic operand symbolic int64"),
+            dict(harness="C20_H2", cover=["set", "unset", "assign-default", "error", "arith-assign", "arith-inc"], bounds="histories of 2 operations"),
+            dict(harness="C20_H1Sym", bounds="histories of 1 operation with an additional name of 2 symbolic bytes"),
+        ],
+        "thorough": [
+            dict(harness="C20_H1"),
+            dict(harness="C20_H2", cover=["set", "unset", "assign-default", "error", "arith-assign", "arith-inc"]),
+            dict(harness="C20_H3", bounds="histories of 3 operations"),
+            dict(harness="C20_H1Sym"),
+            dict(harness="C20_H2Sym", bounds="histories of 2 operations with an additional symbolic name"),
+        ],
+    },
     "C19": {
         "quick": [
             dict(harness="C19_Option", bounds="all 2^64 Option values"),
@@ -118,6 +143,10 @@ META = {
                 note="values/words are at most 2-3 symbolic ASCII bytes; unquoted cells assume no default-IFS byte in value/word (splitting is C14); pattern removal uses concrete 9 patterns without brackets and values over {a,b} (regexp runs natively on concretised strings)"),
     "C14": dict(text="Expand in default mode (NoGlob) of words built from quoted/unquoted segments of symbolic bytes, with symbolic IFS, yields exactly the fields of a reference splitter written from the statement (cut at unquoted IFS bytes, drop empty unquoted fields). " + BOUNDED,
                 note="segments <= 2 symbolic ASCII bytes, <= 3 (quick) / 6 (thorough) segments, IFS <= 3 symbolic bytes; multi-byte IFS only through one concrete representative"),
+    "C15": dict(text="For every string s of symbolic runes within the bound, written under each literal quoting, the real parser followed by the real Expand (every documented mode) yields exactly one field equal to s (Pattern mode: the reference escaping), under an adversarial environment. " + BOUNDED,
+                note="|s| <= 2 runes over D (3 ASCII runes thorough); IFS is 2 symbolic bytes; the file system is the engine's model with files that would match unquoted specials; user.Lookup is a stub"),
+    "C20": dict(text="Inductive-style stepping of ExecEnv against a map model: after every operation of every history within the bound, Get of every name of the universe and the Walk set agree with the model; specials/positionals reflect Args; Args/Opts/Aliases/AST unchanged. " + BOUNDED,
+                note="histories <= 2 (quick) / 3 (thorough) operations over {Set, Unset, ${n:=w}, ${n:?w}, Eval n=k, Eval n++, plain expansion} x 11 names (+1 symbolic name); os.Environ is an empty stub; $$ is not compared"),
     "C19": dict(text="No panic / non-termination of Pos, End, Fprint (symbolic Config), Expand (symbolic ExpMode and Option), Eval, Match, Glob and Option.String on every feasible path within the bounds; errors are of the documented kinds. " + BOUNDED,
                 note="ASTs come from the parser on bounded inputs (hand-built ASTs are outside); Glob runs against the engine's empty file-system stub; regexp.Compile/regexp matching run natively on concretised patterns/subjects; user.Lookup is a stub that always fails"),
 }
